@@ -125,6 +125,24 @@ def main(out):
         for fn in ast.walk(mod):
             if not isinstance(fn, ast.FunctionDef):
                 continue
+            # variables of THIS function that hold a token (assigned from a *tokenize(...) call, under any name) or are built from one
+            local_assigns, tokvars = {}, set()
+            for n in ast.walk(fn):
+                if isinstance(n, ast.Assign):
+                    for t in n.targets:
+                        for tn in ast.walk(t):
+                            if isinstance(tn, ast.Name):
+                                local_assigns.setdefault(tn.id, set()).update(names_in(n.value))
+                                if any(isinstance(c, ast.Call) and call_name(c).endswith("tokenize") for c in ast.walk(n.value)):
+                                    tokvars.add(tn.id)
+            grew = True
+            while grew:
+                grew = False
+                for v, src in local_assigns.items():
+                    if v not in tokvars and src & tokvars:
+                        tokvars.add(v)
+                        grew = True
+            tokvars.add("token")
             for n in ast.walk(fn):
                 if isinstance(n, ast.Call) and call_name(n).split(".")[-1] in {"blockwise", "map_blocks", "Array", "_tree_reduce", "tree_reduce", "partial"}:
                     for k in n.keywords:
@@ -134,10 +152,10 @@ def main(out):
                                 kind = "NConstant"
                             elif isinstance(v, ast.JoinedStr):
                                 inner = names_in(v)
-                                kind = "NHasToken" if ("token" in inner) else ("NDaskSuffix" if call_name(n) == "partial" else "NNoToken")
+                                kind = "NHasToken" if (inner & tokvars) else ("NDaskSuffix" if call_name(n) == "partial" else "NNoToken")
                             elif isinstance(v, ast.Name):
-                                src = assigns.get(v.id, set())
-                                kind = "NHasToken" if ("token" in src or "reduced" in src or v.id in ("out_name", "name", "newname", "groups_token")) else "NNoToken"
+                                src = assigns.get(v.id, set()) | local_assigns.get(v.id, set())
+                                kind = "NHasToken" if ((src & tokvars) or v.id in tokvars or "reduced" in src or v.id in ("out_name", "name", "newname", "groups_token")) else "NNoToken"
                             else:
                                 kind = "NNoToken"
                             names.append((f"{modname}.{fn.name}:{call_name(n)}", ast.unparse(v)[:60], kind))
